@@ -1198,6 +1198,40 @@ pub fn classic_cases() -> Vec<(String, TableauSource)> {
     out
 }
 
+/// The same canonical tableau with its columns and rows permuted.
+fn relabel(rng: &mut Rng, block: &TableauSource) -> TableauSource {
+    let TableauSource::Canonical {
+        c,
+        a,
+        b,
+        basis,
+        value,
+    } = block
+    else {
+        return block.clone();
+    };
+    let w = c.len();
+    let m = a.len();
+    let mut col_of: Vec<usize> = (0..w).collect(); // new position -> old column
+    rng.shuffle(&mut col_of);
+    let mut new_pos = vec![0usize; w];
+    for (np, oc) in col_of.iter().enumerate() {
+        new_pos[*oc] = np;
+    }
+    let mut row_of: Vec<usize> = (0..m).collect();
+    rng.shuffle(&mut row_of);
+    TableauSource::Canonical {
+        c: col_of.iter().map(|oc| c[*oc]).collect(),
+        a: row_of
+            .iter()
+            .map(|or| col_of.iter().map(|oc| a[*or][*oc]).collect())
+            .collect(),
+        b: row_of.iter().map(|or| b[*or]).collect(),
+        basis: row_of.iter().map(|or| new_pos[basis[*or]]).collect(),
+        value: *value,
+    }
+}
+
 /// Block-diagonal composition of a (cycling-prone) canonical tableau with an independent
 /// "box" block whose columns improve the objective strictly: the solver makes improving
 /// pivots first (or in between) and meets the degenerate vertex later in the trace.
@@ -1445,7 +1479,13 @@ pub fn gen_case(rng: &mut Rng, index: u64) -> (String, TableauCase) {
             },
         );
     }
-    let (kind, source) = match rng.weighted(&[36, 30, 22, 12]) {
+    let (kind, source) = match rng.weighted(&[33, 28, 20, 10, 9]) {
+        4 => {
+            // a classical cycling example with its columns and rows relabelled: whether a
+            // pivoting rule cycles depends on the index order its tie-breaks look at
+            let (name, block) = classics[rng.usize(0, classics.len() - 1)].clone();
+            (format!("relabelled:{name}"), relabel(rng, &block))
+        }
         3 => {
             let (name, block) = classics[rng.usize(0, classics.len() - 1)].clone();
             (format!("composite:{name}"), compose_with_improving_box(rng, &block))
